@@ -12,6 +12,10 @@ M = 60_000
 
 class C12(core.Check):
     pid = 'C12'
+    unproved = [
+        "spans that contain a fill (the property's hypothesis allows one per trading-candle span): paired-run oracle",
+        'equality of the candle stores of the two simulators at chunk boundaries: C07 oracle',
+    ]
     gen_keys = ['jesse/services/candle.py:split_candle', 'jesse/modes/backtest_mode.py:_get_fixed_jumped_candle']
     rule = ('correspondence: single-symbol sessions in BOTH simulators on the real engine and on the Lean engine model '
             '(identical traces required per simulator); oracle: the same real session run with fast_mode=False and '
@@ -33,7 +37,7 @@ class C12(core.Check):
         jesse_env.setup()
         rng = random.Random(self.seed * 7919 + 12)
         sessions = []
-        for s in self.sessions(self.budget(16, 300, boost), rng):
+        for s in self.sessions(self.budget(40, 300, boost), rng):
             for fast in (False, True):
                 s2 = copy.deepcopy(s)
                 s2['fast'] = fast
@@ -63,7 +67,7 @@ class C12(core.Check):
     def oracle(self, res, boost):
         jesse_env.setup()
         rng = random.Random(self.seed * 104729 + 12)
-        for sess in self.sessions(self.budget(60, 1200, boost), rng):
+        for sess in self.sessions(self.budget(150, 1200, boost), rng):
             cands = engcorr.candles_of(sess)
             s_step = dict(sess, fast=False)
             s_fast = dict(sess, fast=True)
